@@ -60,6 +60,7 @@ var apiFiles = []treeFile{
 	{Name: "static", Src: "<p>@component(\"~whoami\")</p><i>@component(\"~whoami\")</i>"},
 	{Name: "layouts/nested", Src: "@use(\"~main\")<n>@reserve(\"content\")</n>"},
 	{Name: "nested-use", Src: "@use(\"~nested\")@insert(\"content\")a layout that uses a layout@end"},
+	{Name: "dotcase", Src: "dot:{{ u.name }}|{{ u.tags }}"},
 	{Name: "poly", Src: "poly:{{ v.len() }}|{{ v }}|@if(v){{ v.len() }}@end"},
 }
 
@@ -150,9 +151,10 @@ type apiCase struct {
 }
 
 type apiEnv struct {
-	root string
-	tpl  *textwire.Template
-	cfg  apiCfg
+	root   string
+	tpl    *textwire.Template
+	cfg    apiCfg
+	reconf *bool // debug mode set with Configure after the load (C17: the mode at the time of the Response counts)
 }
 
 func apiSetup(cfg apiCfg, errPageExists bool) (*apiEnv, error) {
@@ -199,6 +201,10 @@ func (e *apiEnv) reload() error {
 		return fmt.Errorf("loading the API tree failed: %v", err)
 	}
 	e.tpl = tpl
+	if e.reconf != nil {
+		// the application changes the debug mode after the templates were loaded (Configure merges: empty fields stay)
+		textwire.Configure(&config.Config{DebugMode: *e.reconf})
+	}
 	return nil
 }
 
@@ -227,6 +233,10 @@ func (e *apiEnv) run(o apiOp) (sig string, body string, ok bool) {
 		page, data["v"] = "poly", []string{"x", "y"}
 	case "polyI":
 		page, data["v"] = "poly", 1234
+	case "dotS": // a struct with exported fields, reached through the lower-cased first letter
+		page, data["u"] = "dotcase", apiRec{Name: "struct", Tags: []string{"s"}}
+	case "dotM": // a map with exactly these keys
+		page, data["u"] = "dotcase", map[string]any{"name": "map", "tags": []any{"m"}}
 	}
 	// the root path and this call's own "who" are normalised; any other call's "who" stays visible in the signature
 	norm := func(s string) string { return strings.ReplaceAll(s, e.root, "$ROOT") }
@@ -289,6 +299,7 @@ func (e *apiEnv) run(o apiOp) (sig string, body string, ok bool) {
 		delete(data, "r")
 	}
 	delete(data, "v")
+	delete(data, "u")
 	if data != nil && !reflect.DeepEqual(data, apiDataN(dataN)) {
 		sig += " DATA-MODIFIED"
 	}
@@ -371,6 +382,15 @@ func apiFamily(raw json.RawMessage) Result {
 		return res
 	}
 	defer e.close()
+	if len(c.Ops) > 0 && c.Ops[0].Op.K == "Configure" {
+		on := c.Ops[0].Op.Page == "on"
+		e.reconf = &on
+		c.Cfg.Debug = on
+		c.Ops = c.Ops[1:]
+		if len(c.ExpOk) > 0 {
+			c.ExpOk = c.ExpOk[1:]
+		}
+	}
 	solos := map[apiOp]string{}
 	for _, o := range c.Ops {
 		if _, ok := solos[o.Op]; !ok {
